@@ -2262,7 +2262,7 @@ func genTotality(g *Rng, tier string) *Plan {
 				st.Pm = g.Intn(1000)
 			case "slow":
 				st.Chunks = Pick(g, 3, 10, 40)
-				st.DelayMs = Pick(g, int64(50), 300, 1000)
+				st.DelayMs = Pick(g, int64(53), 307, 1009) // never a multiple that lands exactly on a timeout: two timers due at the same simulated instant fire in no defined order
 			case "garbage":
 				st.Seed, st.N = g.Uint64(), g.Intn(4000)
 			}
